@@ -343,36 +343,155 @@ fn bool_to_json() -> goast::Fn {
 }
 
 fn json_escape_string() -> goast::Fn {
-    // Returns a JSON-escaped string with surrounding quotes
-    // Uses fmt.Sprintf("%q", s) which produces a Go string literal that is JSON-compatible
-    let fmt_ty = goty::GoType::TFunc {
-        params: vec![goty::GoType::TString, goty::GoType::TString],
-        ret_ty: Box::new(goty::GoType::TString),
+    // Returns the JSON string literal for `s` (with the surrounding quotes): `"` and `\` are
+    // escaped, control characters become \n, \r, \t or \u00XX, everything else is copied.
+    // (Go's %q is not JSON: it writes \a, \v, \x7f and \U0010ffff.)
+    use goty::GoType::{TBool, TInt32, TString};
+    let var = |name: &str, ty: goty::GoType| goast::Expr::Var {
+        name: name.to_string(),
+        ty,
     };
+    let int = |value: i64| goast::Expr::Int {
+        value: value.to_string(),
+        ty: TInt32,
+    };
+    let text = |value: &str| goast::Expr::String {
+        value: value.to_string(),
+        ty: TString,
+    };
+    let runes_ty = goty::GoType::TSlice {
+        elem: Box::new(TInt32),
+    };
+    let call = |name: &str, args: Vec<goast::Expr>, ty: goty::GoType| goast::Expr::Call {
+        func: Box::new(goast::Expr::Var {
+            name: name.to_string(),
+            ty: goty::GoType::TFunc {
+                params: vec![],
+                ret_ty: Box::new(ty.clone()),
+            },
+        }),
+        args,
+        ty,
+    };
+    let binary = |op: goast::GoBinaryOp, lhs: goast::Expr, rhs: goast::Expr, ty: goty::GoType| {
+        goast::Expr::BinaryOp {
+            op,
+            lhs: Box::new(lhs),
+            rhs: Box::new(rhs),
+            ty,
+        }
+    };
+    let append_out = |piece: goast::Expr| goast::Stmt::Assignment {
+        name: "out".to_string(),
+        value: binary(goast::GoBinaryOp::Add, var("out", TString), piece, TString),
+    };
+    let r_is = |code: i64| binary(goast::GoBinaryOp::Eq, var("r", TInt32), int(code), TBool);
+
+    // innermost alternative first: control characters as \u00XX, anything else verbatim
+    let mut chain = goast::Stmt::If {
+        cond: binary(goast::GoBinaryOp::Less, var("r", TInt32), int(32), TBool),
+        then: goast::Block {
+            stmts: vec![append_out(call(
+                "fmt.Sprintf",
+                vec![text("\\u%04x"), var("r", TInt32)],
+                TString,
+            ))],
+        },
+        else_: Some(goast::Block {
+            stmts: vec![append_out(call("string", vec![var("r", TInt32)], TString))],
+        }),
+    };
+    for (code, escaped) in [
+        (9, "\\t"),
+        (13, "\\r"),
+        (10, "\\n"),
+        (92, "\\\\"),
+        (34, "\\\""),
+    ] {
+        chain = goast::Stmt::If {
+            cond: r_is(code),
+            then: goast::Block {
+                stmts: vec![append_out(text(escaped))],
+            },
+            else_: Some(goast::Block { stmts: vec![chain] }),
+        };
+    }
+
     goast::Fn {
         name: "json_escape_string".to_string(),
-        params: vec![("s".to_string(), goty::GoType::TString)],
-        ret_ty: Some(goty::GoType::TString),
+        params: vec![("s".to_string(), TString)],
+        ret_ty: Some(TString),
         body: goast::Block {
-            stmts: vec![goast::Stmt::Return {
-                expr: Some(goast::Expr::Call {
-                    func: Box::new(goast::Expr::Var {
-                        name: "fmt.Sprintf".to_string(),
-                        ty: fmt_ty,
-                    }),
-                    args: vec![
-                        goast::Expr::String {
-                            value: "%q".to_string(),
-                            ty: goty::GoType::TString,
-                        },
-                        goast::Expr::Var {
-                            name: "s".to_string(),
-                            ty: goty::GoType::TString,
-                        },
-                    ],
-                    ty: goty::GoType::TString,
-                }),
-            }],
+            stmts: vec![
+                goast::Stmt::VarDecl {
+                    name: "rs".to_string(),
+                    ty: runes_ty.clone(),
+                    value: Some(call("[]int32", vec![var("s", TString)], runes_ty.clone())),
+                },
+                goast::Stmt::VarDecl {
+                    name: "out".to_string(),
+                    ty: TString,
+                    value: Some(text("\"")),
+                },
+                goast::Stmt::VarDecl {
+                    name: "i".to_string(),
+                    ty: TInt32,
+                    value: Some(int(0)),
+                },
+                goast::Stmt::Loop {
+                    body: goast::Block {
+                        stmts: vec![
+                            goast::Stmt::If {
+                                cond: binary(
+                                    goast::GoBinaryOp::GreaterEq,
+                                    var("i", TInt32),
+                                    call(
+                                        "int32",
+                                        vec![call(
+                                            "len",
+                                            vec![var("rs", runes_ty.clone())],
+                                            TInt32,
+                                        )],
+                                        TInt32,
+                                    ),
+                                    TBool,
+                                ),
+                                then: goast::Block {
+                                    stmts: vec![goast::Stmt::Break],
+                                },
+                                else_: None,
+                            },
+                            goast::Stmt::VarDecl {
+                                name: "r".to_string(),
+                                ty: TInt32,
+                                value: Some(goast::Expr::Index {
+                                    array: Box::new(var("rs", runes_ty)),
+                                    index: Box::new(var("i", TInt32)),
+                                    ty: TInt32,
+                                }),
+                            },
+                            chain,
+                            goast::Stmt::Assignment {
+                                name: "i".to_string(),
+                                value: binary(
+                                    goast::GoBinaryOp::Add,
+                                    var("i", TInt32),
+                                    int(1),
+                                    TInt32,
+                                ),
+                            },
+                        ],
+                    },
+                },
+                goast::Stmt::Return {
+                    expr: Some(binary(
+                        goast::GoBinaryOp::Add,
+                        var("out", TString),
+                        text("\""),
+                        TString,
+                    )),
+                },
+            ],
         },
     }
 }
